@@ -238,10 +238,12 @@ def replay_file(runner, path):
     return runner.run(text), text
 
 
-def confirm(variant, text, times, pid=None, known=None):
+def confirm(variant, text, times, pid=None, known=None, timeout_fails=False):
     r = Runner(variant); r.start(); fails = 0; last = None
     for _ in range(times):
         v = r.run(text)
+        if timeout_fails and v.get("v") == "timeout":
+            v = dict(v); v["v"] = "fail"; v["sig"] = "timeout:no_verdict"
         if is_failure(v):
             if known is not None and match_known(known, pid, v.get("sig", ""), v.get("detail", "")) is not None:
                 continue
@@ -313,6 +315,7 @@ def run_check(modname, tier, seed, replay=None):
     with ctx.Pool(processes=min(len(jobs), 16)) as pool:
         results = pool.map(_worker, jobs, chunksize=1)
     worker_errors = []
+    confirmed_sigs = set()
     for (job, res) in zip(jobs, results):
         total.merge(res)
         if res.get("error"):
@@ -321,12 +324,18 @@ def run_check(modname, tier, seed, replay=None):
             notes.append("worker %d hit its wall-clock budget (inconclusive beyond the cases counted)" % res["widx"])
         if res["failed"] and res["fail_last"]:
             fl = res["fail_last"]; variant = job[5]
+            fsig = fl["verdict"].get("sig", "")
+            if fsig in confirmed_sigs:
+                continue                      # one confirmation per distinct signature
+            tof = getattr(mod, "TIMEOUT_IS_FAILURE", False)
             times = 3
-            fails, last = confirm(variant, fl["text"], times, pid, known)
+            fails, last = confirm(variant, fl["text"], times, pid, known, tof)
             text = fl["text"]
             if fails == 0 and res["fail_first"]:
-                fails, last = confirm(variant, res["fail_first"]["text"], 10, pid, known)
+                fails, last = confirm(variant, res["fail_first"]["text"], 10, pid, known, tof)
                 text = res["fail_first"]["text"]
+            if fails > 0:
+                confirmed_sigs.add(fsig)
             if fails > 0:
                 os.makedirs(os.path.join(rdir, "found"), exist_ok=True)
                 path = os.path.join(rdir, "found", "%s_%s.case" % (pid, case_hash(text)))
